@@ -772,3 +772,19 @@ Proof.
     pose proof (plain_names_ok _ Hpl) as Hok. rewrite Forall_forall in Hok. apply Hok. exact Hin. }
   rewrite X. reflexivity.
 Qed.
+
+(** * [glyph::Image::new] *)
+Lemma glyph_image_new_accepts raw :
+  glyph_image_new raw = None <->
+  raw <> [] /\ is_absolute raw = false /\ (length (components raw) <= 1)%nat /\ utf8_valid raw = true.
+Proof.
+  unfold glyph_image_new. destruct raw as [|x r].
+  - simpl. split; [intros X; discriminate X | intros [H _]; congruence].
+  - simpl is_nil. cbv iota. destruct (is_absolute (x :: r)).
+    + split; [intros X; discriminate X | intros [_ [H _]]; discriminate H].
+    + destruct (2 <=? N.of_nat (length (components (x :: r)))) eqn:E.
+      * split; [intros X; discriminate X|]. intros [_ [_ [H _]]]. apply N.leb_le in E. lia.
+      * apply N.leb_gt in E. destruct (utf8_valid (x :: r)); cbn [negb].
+        -- split; [intros _|reflexivity]. split; [discriminate|]. split; [reflexivity|]. split; [lia | reflexivity].
+        -- split; [intros X; discriminate X | intros [_ [_ [_ H]]]; discriminate H].
+Qed.
